@@ -181,25 +181,25 @@ namespace RecInt
     // a = b - c    (r stores the borrow)
     template <size_t K, typename T>
     inline __RECINT_IS_ARITH(T, void) sub(bool& r, rint<K>& a, const rint<K>& b, const T& c) {
-        sub(r, a.Value, b.Value, c);
+        if (c < 0) add(r, a.Value, b.Value, -c); else sub(r, a.Value, b.Value, c);
     }
 
     // a -= b    (r stores the borrow)
     template <size_t K, typename T>
     inline __RECINT_IS_ARITH(T, void) sub(bool& r, rint<K>& a, const T& b) {
-        sub(r, a.Value, b);
+        if (b < 0) add(r, a.Value, -b); else sub(r, a.Value, b);
     }
 
     // a = b - c    (the borrow is lost)
     template <size_t K, typename T>
     inline __RECINT_IS_ARITH(T, void) sub(rint<K>& a, const rint<K>& b, const T& c) {
-        sub(a.Value, b.Value, c);
+        if (c < 0) add(a.Value, b.Value, -c); else sub(a.Value, b.Value, c);
     }
 
     // a -= b    (the borrow is lost)
     template <size_t K, typename T>
     inline __RECINT_IS_ARITH(T, void) sub(rint<K>& a, const T& b) {
-        sub(a.Value, b);
+        if (b < 0) add(a.Value, -b); else sub(a.Value, b);
     }
 
 
